@@ -1,11 +1,12 @@
 (* JsonSemTop.v -- normalize() on the propositional-scalar fragment: the result accepts what the schema accepts (C06). *)
-From Fences Require Import Normalize NormShape JsonValid JsonGen JsonEnum JsonSem JsonSemDnf JsonSemNorm.
+From Fences Require Import Normalize NormShape JsonValid JsonGen JsonEnum JsonSem JsonSemAlts JsonSemDnf JsonSemNorm.
 From Coq Require Import String ZArith Lia.
 Local Open Scope list_scope.
 
 Section Top.
 Variable SV : svariant.
 Variable cfg : nconfig.
+Hypothesis FL : fix_lone_if SV = true.
 Hypothesis FM : full_merge cfg = true.
 Hypothesis DD : detect_dup cfg = false.
 Hypothesis DF : forall k, In k (SK ++ CK) -> smem k (discard_fields cfg) = false.
@@ -91,9 +92,7 @@ Theorem normalize_fragment fuel m d n : frag m (JObj d) -> normalize SV cfg fuel
   exists L, any_of n = Ok (map JObj L) /\ Forall galt L /\ forall x, alts_valid L x <-> sem m x (JObj d).
 Proof.
   intros Fs H. destruct m as [|m]; [destruct Fs|].
-  assert (Absent : forall k, ~ In k (SK ++ CK) -> dget k d = None).
-  { destruct Fs as [_ Hk]. intros k N. destruct (dget k d) eqn:G; auto. exfalso. apply N. apply in_or_app.
-    destruct (Hk k j G) as [[I _]|[[-> _]|[[-> _]|[-> _]]]]; auto; right; cbv; tauto. }
+  assert (Absent : forall k, ~ In k (SK ++ CK) -> dget k d = None) by (intros k N; exact (frag_absent m d Fs k N)).
   unfold normalize in H.
   rewrite (ddel_absent (kw "$schema") d) in H by (apply Absent; cbv; intuition discriminate).
   rewrite (ddel_absent (kw "$defs") d) in H by (apply Absent; cbv; intuition discriminate).
@@ -106,7 +105,7 @@ Proof.
     destruct (inline_refs f (JObj (e :: d')) (JObj (e :: d'))) as [[inl c]| | |] eqn:EI; cbn [bind] in H; try discriminate.
     destruct (inline_sem _ f (S m) _ Fs inl c EI) as (-> & Fi & Ei).
     destruct (to_dnf SV cfg f inl) as [result| | |] eqn:ET; cbn [bind] in H; try discriminate.
-    destruct (to_dnf_sem SV cfg FM DF f (S (S m)) inl Fi result ET) as (L & -> & FgL & EqL).
+    destruct (to_dnf_sem SV cfg FL FM DF f (S (S m)) inl Fi result ET) as (L & -> & FgL & EqL).
     rewrite DD in H. cbn [orb] in H. cbv zeta in H. rewrite any_of_dnf in H. cbn [bind] in H.
     rewrite (alts_pass f _ L [] [] FgL) in H. cbn [bind app] in H.
     inversion H; subst n. exists L. split; [reflexivity|]. split; [exact FgL|].
@@ -121,7 +120,7 @@ Qed.
 
 (* the configuration normalize() uses by default: full merge, the default list of discarded annotations,
    no duplicate detection *)
-Theorem normalize_fragment_default SV fuel m d n : frag m (JObj d) ->
+Theorem normalize_fragment_default SV fuel m d n : fix_lone_if SV = true -> frag m (JObj d) ->
   normalize SV (mkNConfig true default_discard false) fuel (JObj d) = Ok n ->
   exists L, any_of n = Ok (map JObj L) /\ Forall galt L /\ forall x, alts_valid L x <-> sem m x (JObj d).
-Proof. apply normalize_fragment; [reflexivity|reflexivity|exact default_DF]. Qed.
+Proof. intros FL. apply normalize_fragment; [exact FL|reflexivity|reflexivity|exact default_DF]. Qed.
